@@ -106,6 +106,16 @@ def job_random(args):
         n = rnd.randrange(2, 13)
         hi = rnd.choice([3, 16, 4096])
         npairs = n * (n - 1) // 2
+        if rnd.random() < 0.25:
+            # large magnitudes with small differences (durations in ms, squared distances ...): entries (j - i) * 10^8 + 0..9;
+            # every sum stays an exact double (and below 2^31 for the model), so the comparison between partitions is exact
+            n = rnd.randrange(3, 9)
+            pairs_ = [(i, j) for i in range(n) for j in range(i + 1, n)]
+            mat = sym(n, [(j - i) * 100000000 + rnd.randrange(0, 10) for (i, j) in pairs_])
+            for mode in (0, 1):
+                out.append(call_partition(n, mat, mode, scale=1, junk=0))
+                out.append(call_segmentation(n, mat, mode, scale=1, glob=False))
+            continue
         lo = rnd.choice([0, 0, -hi])            # costs AND rewards: signed entries, exact zeros included
         mat = sym(n, [rnd.randrange(lo, hi + 1) for _ in range(npairs)])
         for mode in (0, 1):
